@@ -21,6 +21,7 @@ ENGINES = {
     "coq-store": ("coq/store", "row-level models of the sqlite and cosmosdb vaults refining an association-list specification"),
     "coq-query": ("coq/query", "query AST + transcription of Exists/Search/buildSearchQuery/List of both back ends"),
     "coq-engine": ("coq/engine", "observable automaton of internal/execute/sm (shared by C01-C04, C06-C08; per-property projects coq/c0N on top), with coq/limiter (mechanism models) and coq/smgraph (source-generated state graph)"),
+    "coq-resume": ("coq/resume", "the engine automaton resumed from coq/recover's repair of a crash image (in-memory image next to the durable one)"),
     "coq-api": ("coq/api", "small-step model of Plans.Start / the run goroutine / Wait, Status, Plan, Submit"),
     "coq-validate": ("coq/validate", "transcription of workflow.Validate (BFS queue, shared key set), Defaults, Submit, validateStartState + declarative WF"),
 }
@@ -273,6 +274,40 @@ CHECKS["C08"] = dict(
          "sweep, not a theorem; quiescence at release is C04",
     technique="Coq proof (product invariant automaton x monitor + reachable-state invariant; read-hypothesis lemma) + trace-acceptance correspondence on polled traces + k-th-write failure sweep",
     design="DESIGN.md section 6 C08, section 13")
+
+RECOVER_NOTE = ("crash = a prefix of the durable write sequence of a real run (every prefix for runs <= 150 writes), materialised with vault.Create and "
+                "recovered by the real coercion.New; double crashes are sampled (all of them for small runs in the thorough tier), plus file-backed "
+                "stores and 200 real SIGKILLs in the thorough tier; the repair functions have a direct function-equality correspondence through "
+                "the verifhooks hooks (coq/recover); ")
+CHECKS["C09"] = dict(
+    engine="coq-resume",
+    text="Coq theorems: c09_finished_plan_runs_nothing (a plan not durably Running is not resumed: no plugin call, no write), "
+         "c09_no_reexecution_partial (for EVERY well-formed crash image, every flag set and every trace accepted by the resumed automaton "
+         "from the repair of that image, no sequence action that was durably Completed / whose last durable attempt had no error is invoked, "
+         "and nothing is invoked inside a durably Completed or Failed sequence, block or plan) and c09_crash_chain (the same after any "
+         "number of crashes), on top of coq/recover's fix_never_unfinishes. Every real recovery (each write prefix of each recorded run, "
+         "sampled double crashes) must be accepted by the resumed automaton and satisfy the independent monitor mon_noreexec (vm_compute); "
+         "the crash image is checked equal to the store read-back and well-formed (img_wf) on every case.",
+    note=RECOVER_NOTE + "PARTIAL in one respect: the statement is for images satisfying the boolean img_wf; that every durable image of an "
+         "uninterrupted run is well-formed is checked on every real crash image (never failed) but not yet proved as an invariant of the "
+         "engine automaton",
+    technique="Coq proof (invariant of the resumed automaton + repair facts derived from coq/recover) + trace-acceptance correspondence on real recoveries + direct function equality for the repair functions",
+    design="DESIGN.md section 6 C09, section 13")
+CHECKS["C10"] = dict(
+    engine="coq-resume",
+    text="Coq theorems: c10_released_plan_is_quiescent / c10_recovery_converges_partial (with no deviation flag, every release accepted by the "
+         "resumed automaton returns a terminal plan with nothing left Running, the terminal write = finalStates of the in-memory statuses), "
+         "c10_flags_only_loosen, and the FULL statement refuted per known finding (c10_recovery_converges_refuted_R2/R3/R5/R6: one real "
+         "recovery each, accepted only with that flag, on which mon_converges is false). The remaining clauses (reaches release without "
+         "hanging; C04 consistency of the final plan; every entered scope's deferred group has a completed run; final status = the "
+         "uninterrupted run's verdict for action-determined plugin outcomes) are evaluated by the independent monitor mon_converges on "
+         "every real recovery; a case that needs a listed finding prints KNOWN-FINDING, anything else is a VIOLATION.",
+    note=RECOVER_NOTE + "PARTIAL: progress/termination, the consistency and deferred-check clauses and verdict equality are monitored, not "
+         "proved; the code genuinely violates the full property (known findings R2, R3, R5, R6 in known_findings.json: interrupted "
+         "check-group runs, fixBlock early return, in-memory-only sequence repair before a second crash, plan continuous failure abandoning "
+         "the running block); R7 was repaired (0c944e8)",
+    technique="Coq proof (release-side invariant; refutation witnesses by vm_compute) + monitor + trace-acceptance correspondence on real recoveries",
+    design="DESIGN.md section 6 C10, section 13")
 
 PENDING_REASON = "check under construction in this session (see DESIGN.md section 12 build order); not yet claimed"
 
